@@ -3,7 +3,6 @@
  * holds after every history by induction; all loops have constant bounds (16 slots, 16 blocks, 64 bits).
  * The harness includes the real mzd.c (to reach its file-static cache) and links the real mmc.c. */
 #include <m4ri/mzd.c>
-#include <m4ri/graycode.h>
 #include "vp.h"
 
 extern mmb_t m4ri_mmc_cache[__M4RI_MMC_NBLOCKS];
@@ -109,6 +108,21 @@ void harness(void) {
 }
 #endif
 
+#ifdef H_MMC_FREE_LEAK
+/* a block handed to the cache is released exactly once by the time the library is finalised (run with --memory-leak-check):
+ * covers the eviction path (cache full) and the plain caching path */
+void harness(void) {
+  mmc_any_cursor();
+  mmc_any_state();
+  VP_IN(size_t, in_size);
+  VP_ASSUME(in_size >= 1 && in_size <= 4096);
+  void *p = malloc(in_size);
+  VP_ASSUME(p != NULL);
+  m4ri_mmc_free(p, in_size);
+  m4ri_mmc_cleanup();
+}
+#endif
+
 #ifdef H_MMC_FREE_ZERO
 /* zero-area matrices hand (NULL, 0) to the block cache */
 void harness(void) {
@@ -135,7 +149,6 @@ void harness(void) {
 #ifdef H_FINI
 /* library finalisation after real use: code book built and destroyed, a matrix created and freed: no memory retained */
 void harness(void) {
-  m4ri_codebook = NULL;
   VP_IN(int, in_r);
   VP_IN(int, in_c);
   VP_ASSUME(in_r >= 0 && in_r <= 3 && in_c >= 0 && in_c <= 130);
